@@ -336,4 +336,6 @@ class SphinxFootnoteSystem(System):
 def systems(tier):
     if tier == "quick":
         return [FootnoteSystem(tier, "arrangements", list(range(13)) + [16, 17, 19, 20], 3), FootnoteSystem(tier, "arrangements-wide", list(range(len(SYM))), 2), FootnoteSystem(tier, "arrangements-deep", SYM_SMALL, 4), SphinxFootnoteSystem(tier)]
-    return [FootnoteSystem(tier, "arrangements", list(range(len(SYM))), 4), FootnoteSystem(tier, "arrangements-deep", SYM_SMALL, 6), SphinxFootnoteSystem(tier)]
+    # thorough: the core alphabet one step deeper, the full alphabet one step deeper, the small alphabet to depth 5 and its first 10 symbols to depth 6
+    return [FootnoteSystem(tier, "arrangements", list(range(13)) + [16, 17, 19, 20], 4), FootnoteSystem(tier, "arrangements-wide", list(range(len(SYM))), 3),
+            FootnoteSystem(tier, "arrangements-deep", SYM_SMALL, 5), FootnoteSystem(tier, "arrangements-deepest", SYM_SMALL[:10], 6), SphinxFootnoteSystem(tier)]
